@@ -260,6 +260,9 @@ func alphabet(thorough bool) []Op {
 	for m := 0; m < 2; m++ {
 		for t := 1; t >= 0; t-- {
 			for s := 1; s < 3; s++ {
+				if t == 1 && s == 2 && !thorough {
+					continue // proposer at 2*min for c1: thorough only
+				}
 				ops = append(ops, Op{K: "apply", M: m, A: 3, T: t, S: s})
 			}
 		}
@@ -1416,7 +1419,7 @@ func trimLogs() {
 
 // reduced alphabet for the deeper phase: validators only, stakes at / above the minimum,
 // refunds by the owner, change-account by the owner.
-func reducedAlphabet() []Op {
+func reducedAlphabet(thorough bool) []Op {
 	var ops []Op
 	for m := 0; m < 2; m++ {
 		for a := 0; a < 2; a++ {
@@ -1424,9 +1427,12 @@ func reducedAlphabet() []Op {
 				ops = append(ops, Op{K: "apply", M: m, A: a, T: 0, S: s})
 			}
 		}
+		if thorough {
+			// the contract account c1 at the minimum (quick has it in the full alphabet only)
+			ops = append(ops, Op{K: "apply", M: m, A: 3, T: 0, S: 1})
+		}
 	}
 	for m := 0; m < 2; m++ {
-		ops = append(ops, Op{K: "apply", M: m, A: 3, T: 0, S: 1})
 		ops = append(ops, Op{K: "add", M: m, S: 1})
 		ops = append(ops, Op{K: "refund", M: m, S: 0}, Op{K: "refund", M: m, S: 1})
 		for a := 0; a < 3; a++ {
@@ -1472,7 +1478,7 @@ func run(c *fw.Ctx) {
 	bfs(c, "full alphabet", full, d1, 1)
 	phaseDeadline = c.Deadline
 	if d2 > 0 {
-		red := reducedAlphabet()
+		red := reducedAlphabet(c.Thorough())
 		c.Note("phase2", fmt.Sprintf("reduced alphabet of %d operation classes, all histories to depth %d", len(red), d2))
 		// histories up to depth d1 over the reduced alphabet are a subset of phase 1: count from d1+1
 		bfs(c, "reduced alphabet", red, d2, d1+1)
